@@ -286,6 +286,10 @@ func (o Lazy[T]) MarshalJSON() ([]byte, error) {
 }
 
 func (o *Lazy[T]) UnmarshalJSON(data []byte) error {
+	// A Lazy declared as a zero value (e.g. a struct field) has no empty value error supplier yet
+	if o.emptyValueErrSupplier == nil {
+		o.emptyValueErrSupplier = defaultEmptyValueErr
+	}
 
 	if string(data) == "null" {
 		o.fetcher = func(_ context.Context) (*T, error) {
